@@ -490,7 +490,12 @@ def c09i(ctx):
         return
     b = ctx.touch(bs[0])
     nexts = b.calls_to(r"iterator::Iterator::next$")
-    filters = b.calls_to(r"HashSet::<T, S, A>::(contains|remove)$")
+    def on_field(s_, name):
+        ap = [e for e in df.access_path(b, s_.node["args"][0]) if not e.startswith("<")]
+        return bool(ap) and ap[-1] == name
+    setops = b.calls_to(r"HashSet::<T, S, A>::(contains|remove)$")
+    filters = [s_ for s_ in setops if on_field(s_, "removed")]          # the staged removals are the filter
+    taken = [s_ for s_ in setops if on_field(s_, "added")]              # the staged additions are de-duplicated (D16)
     o.sites = len(filters)
     if len(filters) < 3 or len(nexts) < 3:
         ctx.fail(o, Site(b, 0, 0), "expected >= 3 filtered sources (spilled half, spilled rest, streaming scan), found %d filters over %d next() calls" % (len(filters), len(nexts)))
@@ -506,6 +511,19 @@ def c09i(ctx):
             ctx.fail(o, n, "MergeIterator::next polls this source once and filters the item against the staged removals without coming back to it: a rejected member hands the "
                      "turn to the later sources, and once those are exhausted the iterator ends although members of this source remain - a read of a spilled set with "
                      "staged removes loses committed members")
+    # ---- D16: a member yielded from a store source is first taken out of the staged additions (else it is yielded twice)
+    o2 = ctx.ob("C09.i", "merge/store-member-is-taken-out-of-the-staged-additions", "K1",
+                "every accepted member of a filtered store source passes HashSet::remove on the staged additions before it is returned")
+    o2.sites = len(taken)
+    oks = b.aggregates(r"core::option::Option$", "Some")
+    for f in filters:
+        # the blocks that return this source's item: Some(..) aggregates reachable from the filter without going through
+        # another source's poll
+        rets = [k for k in oks if k.bb in b.reachable(b.successors(f.bb), removed_nodes=[n_.bb for n_ in nexts])]
+        for k in rets:
+            if not any(b.site_dominates(t_, k) and t_.bb in b.reachable(b.successors(f.bb)) for t_ in taken):
+                ctx.fail(o2, k, "MergeIterator::next returns a member of the store scan without taking it out of the staged additions: a member that is in the store and staged as an "
+                         "addition (inserted again before the first insert left the log) is yielded twice - the read has more items than the set has members")
 
 
 def c09k(ctx):
@@ -546,6 +564,29 @@ def c09k(ctx):
                  "cached (the loader's sample predates it, the writer finds nothing to patch)" % (
                      "" if inside else "get_entry samples the staging log before it registers its single-flight", "" if inside or sf else "; ",
                      "" if sf else "apply_op goes from the log append straight to the cache lookup without consulting the key's single-flight"))
+
+
+def c09m(ctx):
+    """K7.  WideColumnCache::get fills a miss from the store: it reads the store (init), and inserts the result if the entry is
+    still vacant.  Writers always write into the cache, so a write during the load makes the entry occupied and the fill is
+    skipped (C09.c).  But the written entry can be committed, un-pinned and EVICTED while the loader is still between its store
+    read and its fill: the entry is vacant again and the loader installs what it read before the write - with pin 0, so it
+    stays: later reads return a value older than a committed write.  As for the key-of-set map (K4), the pair is ordered in
+    the shape of the code only if the writers tell an in-flight load of the key that it is outdated (they consult the key's
+    single-flight) or the fill re-validates against a version."""
+    prog = ctx.prog
+    o = ctx.ob("C09.m", "wide-column/late-fill-is-ordered-with-writes", "K8", "WideColumnCache::insert and ::remove consult the key's single-flight (or the fill re-validates), so that a load that predates the write cannot publish")
+    ws = [b for b in prog.all_bodies(["qbice_storage"]) if re.match(r"^WideColumnCache::(insert|remove)$", b.name)]
+    g = [b for b in prog.find(r"^WideColumnCache::get::\{closure#0\}$")]
+    o.sites = len(ws)
+    if len(ws) != 2 or len(g) != 1 or not ctx.touch(g[0]).calls_to(r"single_flight::SingleFlight::<K>::wait_or_work$"):
+        ctx.fail(o, "(program)", "anchor missing: WideColumnCache::insert / ::remove / ::get with its single-flight (%d writers, %d loader)" % (len(ws), len(g)))
+        return
+    bad = [b for b in ws if not ctx.touch(b).calls_to(r"single_flight::SingleFlight::<K>::[a-z_]+$")]
+    if bad:
+        ctx.fail(o, Site(bad[0], 0, 0), "WideColumnCache::%s never tell a load of the same key that is in flight that it is outdated: a write that is committed, un-pinned and evicted while the "
+                 "loader sits between its store read and its fill is followed by the loader installing the older value (pin 0), and reads keep returning it" %
+                 " / ::".join(b.name.split("::")[-1] for b in bad))
 
 
 def c09g_staging(ctx):
@@ -626,11 +667,18 @@ def run(ctx):
     ctx.run_clause("C09.h", c09h)
     ctx.run_clause("C09.i", c09i)
     ctx.run_clause("C09.k", c09k)
+    ctx.run_clause("C09.m", c09m)
     # un-pin notifications release cached entries for eviction: they may only follow the commit of the data they cover, which
     # is decided in the committer (C10.a: apply the expected epoch, consume before listing for notification), here as C09.j
     from . import C10
     ctx.alias = {"C10.a": "C09.j"}
     ctx.run_clause("C09.j", C10.c10a)
+    ctx.alias = {}
+    # an entry whose owner reports it as pinned (an unflushed write) is never evicted - whatever message the policy is
+    # processing: C16.a's who-may-remove / removal-requires-unpinned clauses, evaluated here as C09.l
+    from . import C16
+    ctx.alias = {"C16.a": "C09.l"}
+    ctx.run_clause("C09.l", C16.c16a)
     ctx.alias = {}
     ctx.run_clause("C09.a", c09a)
     ctx.run_clause("C09.b", c09b)
